@@ -161,12 +161,15 @@ def emitterCount (ne : Nat) (seq : List Op) : Nat :=
 
 end Spec
 
+/-- one `add` of the construction loop (stops at the first error) -/
+def buildStep (s : Dag × Option DErr) (op : Op) : Dag × Option DErr :=
+  match s with
+  | (c, some err) => (c, some err)
+  | (c, none) => c.add op
+
 /-- the circuit obtained by `CircuitDAG(ne, np, nc)` followed by `add(op)` for every op of the list -/
-def build (ne np nc : Nat) : List Op → Dag × Option DErr
-  | seq => seq.foldl (fun (s : Dag × Option DErr) op =>
-      match s with
-      | (c, some err) => (c, some err)
-      | (c, none) => c.add op) (Dag.init ne np nc, none)
+def build (ne np nc : Nat) (seq : List Op) : Dag × Option DErr :=
+  seq.foldl buildStep (Dag.init ne np nc, none)
 
 end Metrics
 end Graphiq
